@@ -7,7 +7,7 @@ import struct
 import typing as t
 import uuid
 
-from .. import taps  # noqa: F401
+from .. import taps
 from .. import blobref, provider, refdc, sdref
 from ..core import Ctx, MachineryError
 from ..tlc import require_ok, run_tlc
@@ -228,7 +228,7 @@ def execute(prov: dict, script: list[dict], flavour: str, scripted_port: int, bl
         return Sock(mk(addr[1]))
 
     async def open_connection(host: str, port: int = 0, **k: t.Any):
-        r = asyncio.StreamReader()
+        r = taps.CountingReader()
         return r, Writer(mk(port), r)
 
     o1, o2 = socket.create_connection, asyncio.open_connection
@@ -238,13 +238,14 @@ def execute(prov: dict, script: list[dict], flavour: str, scripted_port: int, bl
         with provider.installed(factory):
             kw = dict(server="dc01", username="u", password="p", auth_protocol="negotiate")
             try:
-                if flavour == "sync":
-                    pt = dpapi_ng.ncrypt_unprotect_secret(blob, **kw)
-                else:
-                    pt = _LOOP.run_until_complete(asyncio.wait_for(dpapi_ng.async_ncrypt_unprotect_secret(blob, **kw), 5))
+                with taps.time_limit(20):
+                    if flavour == "sync":
+                        pt = dpapi_ng.ncrypt_unprotect_secret(blob, **kw)
+                    else:
+                        pt = _LOOP.run_until_complete(asyncio.wait_for(dpapi_ng.async_ncrypt_unprotect_secret(blob, **kw), 5))
                 if pt != b"handshake-payload":
                     end, exc = "error", "wrong plaintext"
-            except asyncio.TimeoutError:
+            except (asyncio.TimeoutError, taps.Hang):
                 end = "hang"
             except MachineryError:
                 raise
